@@ -577,6 +577,11 @@ class Kernel(Module):
         # Process the index
         index = index if isinstance(index, tuple) else (index,)
 
+        # The batch shape after indexing (kernels without parameters or buffers of their own, e.g. MultitaskKernel,
+        # would otherwise keep reporting the un-indexed batch shape)
+        if len(self._batch_shape):
+            new_kernel.batch_shape = torch.empty(self._batch_shape, device="meta")[index].shape
+
         for param_name, param in self.named_parameters(recurse=False):
             new_param = new_kernel.__getattr__(param_name)
             new_param.data = new_param.__getitem__(index)
